@@ -88,19 +88,26 @@ def classify(ctx, trace, source, n, strict, relaxed, max_reports=4):
     return len(bad), reported
 
 
-def mem_family(ctx, fam, kd):
+MODELS = {"mem": dict(module="MC_CacheConc", variant=FIXED, invariants=["Books", "NeverNegative", "Emit"], properties=["NoLostPut"]),
+          "disk": dict(module="MC_DiskConc", variant="{}", invariants=["Books", "NeverNegative", "IndexMatchesFile", "Emit"],
+                       properties=["NoLostPut", "NoExpiredServed"])}
+
+
+def mem_family(ctx, fam, kd, target="mem"):
+    M = MODELS[target]
+    fam = dict(fam, name=f"{target}_{fam['name']}")
     cfg = ctx.path(f"mc_{fam['name']}.cfg")
-    lib.write_cfg(cfg, {"Tasks": fam["Tasks"], "Keys": fam["Keys"], "MaxOps": fam["n"], "OpsPerTask": fam["n"], "Variant": FIXED,
+    lib.write_cfg(cfg, {"Tasks": fam["Tasks"], "Keys": fam["Keys"], "MaxOps": fam["n"], "OpsPerTask": fam["n"], "Variant": M["variant"],
                         "MaxPre": fam["MaxPre"], "InitKinds": fam["InitKinds"], "OpNames": fam["OpNames"]},
-                  "MCInit", "MCNext", invariants=["Books", "NeverNegative", "Emit"], properties=["NoLostPut"], constraints=["PreBound"])
+                  "MCInit", "MCNext", invariants=M["invariants"], properties=M["properties"], constraints=["PreBound"])
     progs = ctx.path(f"sched_{fam['name']}.ndjson")
-    r = lib.tlc(ctx, "MC_CacheConc", cfg, tagged_out={"PROGRAM": progs}, timeout=1500, workers=min(lib.NCPU, 12))
+    r = lib.tlc(ctx, M["module"], cfg, tagged_out={"PROGRAM": progs}, timeout=1500, workers=min(lib.NCPU, 12))
     n = r["counts"]["PROGRAM"]
     ctx.cov["states"] += r["distinct"]
     ctx.cov["transitions"] += r["generated"]
     ctx.stage("mc", family=fam["name"], distinct_states=r["distinct"], schedules=n, wall_s=r["wall_s"])
     trace = ctx.path(f"trace_{fam['name']}.ndjson")
-    d = lib.run_sharded(ctx, "drv_conc", progs, trace, extra_args=["--target", "mem"], shards=12)
+    d = lib.run_sharded(ctx, "drv_conc", progs, trace, extra_args=["--target", target], shards=12)
     if d.get("programs") != n:
         raise lib.ToolError(f"drv_conc executed {d.get('programs')} of {n} schedules")
     followed = sum(1 for l in open(trace) if '"followed":true' in l)
@@ -116,13 +123,31 @@ def mem_family(ctx, fam, kd):
             agree += int(len(gets) == len(m["map"]) and size == sum(1 for g in gets if g != 0))
     ctx.stage("run", family=fam["name"], schedules=n, followed=followed, hangs=d.get("hangs", 0), wall_s=d["wall_s"])
     nr, strict, relaxed, st, tr = judge_lin(ctx, trace, kd)
-    bad, _ = classify(ctx, trace, f"MC_CacheConc {fam['name']}", nr, strict, relaxed)
+    bad, _ = classify(ctx, trace, f"{M['module']} {fam['name']}", nr, strict, relaxed)
     ctx.stage("judge", family=fam["name"], runs=nr, linearizable=len(strict), not_linearizable=bad, monitor_states=st)
     ctx.cov["monitor_states"] = ctx.cov.get("monitor_states", 0) + st
     ctx.cov["schedules_followed_exactly"] = ctx.cov.get("schedules_followed_exactly", 0) + followed
     if not ctx.cov["samples"]:
         ctx.cov["samples"].append(json.loads(lib.read_lines(trace)[min(n - 1, 333)]))
     return n, trace
+
+
+def pinned_designs(ctx):
+    """Model level only, informational: the pinned (pre-fix) designs must be refuted by TLC - this regenerates the
+    counterexamples of F11a/F11c/F11d and shows the invariants are not vacuous."""
+    out = {}
+    base = dict(Tasks="{1, 2}", Keys="{1}", MaxOps=1, OpsPerTask=1, MaxPre=99, InitKinds=INIT3, OpNames=ALL_OPS)
+    for module, variant, invs in [("MC_CacheConc", "{}", ["Books"]), ("MC_CacheConc", '{"get_remove_if", "clear_accounting"}', ["NeverNegative"]),
+                                  ("MC_DiskConc", '{"expired_blind"}', ["Books"]), ("MC_DiskConc", '{"publish_split"}', ["IndexMatchesFile"]),
+                                  ("MC_DiskConc", '{"no_recheck"}', ["Books"])]:
+        cfg = ctx.path(f"pinned_{module}_{len(out)}.cfg")
+        lib.write_cfg(cfg, dict(base, Variant=variant), "MCInit", "MCNext", invariants=invs)
+        r = lib.tlc(ctx, module, cfg, timeout=600, workers=4, expect_violation=True)
+        out[f"{module} Variant={variant}"] = r["invariant_violated"]
+    ctx.cov["pinned_designs_refuted_on_model"] = out
+    ctx.stage("pinned-designs", refuted=sum(1 for v in out.values() if v), of=len(out))
+    if not all(out.values()):
+        raise lib.ToolError(f"a pinned design was NOT refuted by TLC (vacuous invariant?): {out}")
 
 
 def random_runs(ctx, target, n, tasks, ops, keys, kd, tag):
@@ -189,6 +214,11 @@ def run(ctx):
         if first is None:
             first = trace
             selftest(ctx, trace, kd)
+    for fam in families(ctx.quick):
+        if fam["name"].startswith(("A_", "D_", "B_")):
+            n, trace = mem_family(ctx, fam, kd, target="disk")
+            total += n
+    pinned_designs(ctx)
     nrand = 3000 if ctx.quick else 40000
     total += random_runs(ctx, "mem", nrand, 3, 3, 2, kd, "m332")
     total += random_runs(ctx, "mem", nrand, 2, 3, 1, kd, "m231")
